@@ -52,6 +52,10 @@ func (w *World) heapGet(h *Heap, name string, s Sort) Term {
 		cname = fmt.Sprintf("%s@%d", name, h.gen)
 	}
 	t := w.D.Const(cname, s)
+	if w.heapArrays == nil {
+		w.heapArrays = map[string]Sort{}
+	}
+	w.heapArrays[name] = s
 	return t
 }
 
@@ -138,20 +142,26 @@ type State struct {
 	frames  []*Frame
 	heap    *Heap
 	pc      []Term
+	branch  map[int]bool // indices of pc that are branch conditions
 	allocs  []Term
 	trace   []string
 	closures map[string]*ssa.MakeClosure // closure ref term -> instruction
 	cloBind  map[string][]Term
 	ghostSeq int
+	held     []string // lock classes held on this path (lock-order discipline)
 	}
 
 func (s *State) clone() *State {
-	n := &State{heap: s.heap.clone(), ghostSeq: s.ghostSeq}
+	n := &State{heap: s.heap.clone(), ghostSeq: s.ghostSeq, held: append([]string(nil), s.held...)}
 	n.frames = make([]*Frame, len(s.frames))
 	for i, f := range s.frames {
 		n.frames[i] = f.clone()
 	}
 	n.pc = append([]Term(nil), s.pc...)
+	n.branch = make(map[int]bool, len(s.branch))
+	for k, v := range s.branch {
+		n.branch[k] = v
+	}
 	n.allocs = append([]Term(nil), s.allocs...)
 	n.trace = append([]string(nil), s.trace...)
 	n.closures = make(map[string]*ssa.MakeClosure, len(s.closures))
@@ -174,6 +184,19 @@ func (s *State) assume(t Term) {
 	s.pc = append(s.pc, t)
 }
 
+// assumeBranch records a branch condition (an infeasible path is normal when a
+// branch condition is what makes its assumptions unsatisfiable).
+func (s *State) assumeBranch(t Term) {
+	if t.S == "true" {
+		return
+	}
+	if s.branch == nil {
+		s.branch = map[int]bool{}
+	}
+	s.branch[len(s.pc)] = true
+	s.pc = append(s.pc, t)
+}
+
 // ---------- obligations ----------
 
 type Obligation struct {
@@ -192,6 +215,8 @@ type Obligation struct {
 	Model    map[string]Term
 	// result
 	scriptText string
+	extraDecls string
+	branchIdx  map[int]bool
 	pathNo     int
 	replayed   bool
 	replayNote string
@@ -942,6 +967,12 @@ func (ex *Exec) fieldAddr(base Term, structT types.Type, idx int) Term {
 	f := st.Field(idx)
 	fname := "fld!" + w.structName(structT) + "." + f.Name()
 	sym := w.D.Fun(fname, []Sort{SRef}, SRef)
+	if w.fldTags == nil {
+		w.fldTags = map[string]int{}
+	}
+	if _, ok := w.fldTags[sym]; !ok {
+		w.fldTags[sym] = len(w.fldTags) + 1
+	}
 	t := App(SRef, sym, base)
 	if _, ok := w.addr[t.S]; ok {
 		return t
@@ -1058,7 +1089,31 @@ func (ex *Exec) allocRef(st *State, hint string) Term {
 	st.heap.clock++
 	st.assume(Not(Eq(r, TNil)))
 	st.assume(Eq(App(SInt, "born", r), IntLit(int64(st.heap.clock))))
+	st.assume(Eq(App(SInt, "addrtag", r), IntLit(0))) // an allocated object is not the address of a field
 	st.allocs = append(st.allocs, r)
+	// every reference stored anywhere in the heap right now is older than r
+	c := int64(st.heap.clock)
+	for _, name := range sortedKeys(ex.w.heapArrays) {
+		if name == "LockState" || name == "ChanCap" || name == "ChanSends" || name == "BM" {
+			continue
+		}
+		s := ex.w.heapArrays[name]
+		k1, v1, ok := s.IsArray()
+		if !ok || k1 != SRef {
+			continue
+		}
+		arr := ex.w.heapGet(st.heap, name, s)
+		switch {
+		case v1 == SRef:
+			st.assume(Term{fmt.Sprintf("(forall ((r!q Ref)) (! (=> (< (born r!q) %d) (< (born (select %s r!q)) %d)) :pattern ((select %s r!q))))", c, arr.S, c, arr.S), SBool})
+		case v1 == SSlice:
+			st.assume(Term{fmt.Sprintf("(forall ((r!q Ref)) (! (=> (< (born r!q) %d) (< (born (sbase (select %s r!q))) %d)) :pattern ((select %s r!q))))", c, arr.S, c, arr.S), SBool})
+		default:
+			if k2, v2, ok2 := v1.IsArray(); ok2 && v2 == SRef {
+				st.assume(Term{fmt.Sprintf("(forall ((r!q Ref) (k!q %s)) (! (=> (< (born r!q) %d) (< (born (select (select %s r!q) k!q)) %d)) :pattern ((select (select %s r!q) k!q))))", k2, c, arr.S, c, arr.S), SBool})
+			}
+		}
+	}
 	return r
 }
 
